@@ -130,7 +130,7 @@ class Fn:
                             if v.get("bind"):
                                 b.add(v["n"])
             self._bound_names = b
-        return name in b or name.endswith("$result")
+        return name in b or name.endswith("$$ret")
 
     def canon(self, name):
         """the string show() prints for the local variable `name` (variables introduced by sa/flatten.py print as what
@@ -258,7 +258,7 @@ class Fn:
                 for e in b.elems:
                     if e["k"] == "bin" and e["op"] == "=":
                         l = self.d(e["a"][0])
-                        if l and l["k"] == "var" and l["n"].endswith("$result"):
+                        if l and l["k"] == "var" and l["n"].endswith("$$ret"):
                             assigned.setdefault(l["n"], []).append(e["a"][1])
             for name, rhs in assigned.items():
                 if len(rhs) == 1 and decl.get(name, 0) is None:
